@@ -28,6 +28,8 @@ THEOREMS = [
     "Aio.C15.body_is_slice",
     "Aio.C15.response_consistent",
     "Aio.C15.head_has_no_body",
+    "Aio.C15.etagMatch_iff",
+    "Aio.C15.mixed_list_strong_fails",
     "Aio.C15.conditional_precedence",
     "Aio.C15.fstat_always_adopted",
     "Aio.C15.race_response_consistent",
@@ -48,7 +50,8 @@ THEOREMS = [
 RULE = ("(1) FileResponse over real files of sizes 0..6 (+ one 70-byte file) through the in-memory server: every "
         "`bytes=a-b`, `bytes=a-`, `bytes=-n` with a,b,n in 0..size+2, a list of malformed / boundary specs (4300/4301 digits, "
         "multi-range, case, blanks, non-ASCII digits, signs), x GET/HEAD x chunk sizes {1,2,3,7,big}; conditional headers drawn "
-        "from structured pools (If-Match / If-None-Match: *, current strong, current weak, other, list, garbage; dates "
+        "from structured pools (If-Match / If-None-Match: *, current strong, current weak, other, list, garbage, and EVERY entity-tag "
+        "list of length 1..3 over {strong,weak} x {current,other} in both headers x GET/HEAD x with/without Range; dates "
         "mtime-1/mtime/mtime+1/garbage with mtime at .0 and .5 s; If-Range: dates and entity tags), exhaustive product in the "
         "thorough tier. BaseRequest.http_range additionally on a string grammar incl. trailing newline. "
         "(1b) the same FileResponse while the file changes between its stat() and its open() (hook on pathlib.Path.open): in-place "
@@ -320,8 +323,31 @@ def httpdate(t):
 
 
 # structured conditional headers: (kind -> (header value builder, semantic truth))
+TAG_ATOMS = {"sc": (False, "cur"), "wc": (True, "cur"), "so": (False, "other"), "wo": (True, "other"), "sp": (False, "other2"), "wp": (True, "other2")}
+
+
+def tag_list(kind, cur):
+    """kind 'L:sc,wo,…' -> (header value, strong-comparison truth, weak-comparison truth): an entity-tag list mixing weak and
+    strong forms of the current and of other tags in the given order (RFC 9110 §8.8.3.2: strong comparison needs a tag that is
+    not weak on either side; weak comparison only the opaque value)"""
+    vals = {"cur": cur, "other": "deadbeef-1", "other2": "0-0"}
+    atoms = [TAG_ATOMS[a] for a in kind[2:].split(",")]
+    hv = ", ".join(("W/" if w else "") + '"' + vals[v] + '"' for w, v in atoms)
+    return hv, any((not w) and v == "cur" for w, v in atoms), any(v == "cur" for w, v in atoms)
+
+
+class _Pool(dict):
+    def __init__(self, cur, d):
+        super().__init__(d); self.cur = cur
+
+    def __missing__(self, k):
+        if isinstance(k, str) and k.startswith("L:"):
+            return tag_list(k, self.cur)
+        raise KeyError(k)
+
+
 def etag_pool(cur):
-    return {
+    return _Pool(cur, {
         "star": ("*", True, True),
         "cur": (f'"{cur}"', True, True),
         "weakcur": (f'W/"{cur}"', False, True),      # strong comparison fails, weak succeeds
@@ -329,7 +355,7 @@ def etag_pool(cur):
         "list": (f'"deadbeef-1", "{cur}"', True, True),
         "weaklist": (f'W/"x", W/"{cur}"', False, True),
         "garbage": ("abc", False, False),
-    }
+    })
 
 
 def date_pool(mt_s):
@@ -547,7 +573,9 @@ def gen_file_cases(ctx):
     rng = ctx.rng
     cases = []
     sizes = list(range(0, 7))
-    KINDS_E = [None, "star", "cur", "weakcur", "other", "list", "weaklist", "garbage"]
+    KINDS_E = [None, "star", "cur", "weakcur", "other", "list", "weaklist", "garbage",
+               # mixed weak/strong lists, both orders
+               "L:so,wc", "L:wc,so", "L:wo,sc", "L:sc,wo", "L:wo,so", "L:wc,wo,sp"]
     KINDS_D = [None, "before", "same", "after", "garbage"]
     KINDS_IR = [None, "before", "same", "after", "garbage", "cur", "weakcur", "other", "list"]
 
@@ -574,6 +602,18 @@ def gen_file_cases(ctx):
                 if ctx.quick and rng.random() < 0.6:
                     continue
                 cases.append(mk(size, rng.randint(0, 1), rng.choice(FileBed.CHUNKS), "GET", rh, {"ir": ir}))
+    # (c0) every entity-tag list of length 1..3 over {strong,weak} x {current,other}, in If-Match and in If-None-Match,
+    #      x GET/HEAD x with/without Range
+    atoms = ["sc", "wc", "so", "wo"]
+    lists = [list(t) for n in (1, 2, 3) for t in itertools.product(atoms, repeat=n)]
+    for k, lst in enumerate(lists):
+        kind = "L:" + ",".join(lst)
+        for hdr in ("im", "inm"):
+            for method in ("GET", "HEAD"):
+                for rh in (None, "bytes=1-2"):
+                    if ctx.quick and len(lst) == 3 and (k + (method == "HEAD") + (rh is None)) % 2:
+                        continue
+                    cases.append(mk(4, k % 2, 3, method, rh, {hdr: kind}))
     # (c) conditional combinations
     few_ranges = [None, "bytes=1-2", "bytes=-2", "bytes=9-", "bytes=-0", "bytes=x"]
     if ctx.quick:
